@@ -33,8 +33,8 @@ ERRNOS_BY_CALL = {
 
 def tier_params(tier):
     if tier == "thorough":
-        return {"cases": 1500, "recover": "all", "max_steps": 8, "wall_budget_s": 3000}
-    return {"cases": 56, "recover": 6, "max_steps": 6, "wall_budget_s": 600}
+        return {"cases": 6000, "recover": "all", "max_steps": 8, "wall_budget_s": 3300}
+    return {"cases": 192, "recover": 6, "max_steps": 6, "wall_budget_s": 600}
 
 
 # ---------------------------------------------------------------- generation
